@@ -74,11 +74,13 @@ ParamsOK(i, kind) ==
     THEN CASE kind = "count" -> d.mu = R.given.count[1] /\ d.sigma = R.given.count[2]
            [] kind = "gap" -> d.mu = R.given.gap[1] /\ d.sigma = R.given.gap[2]
            [] kind = "dur" -> d.mu = R.given.dur[1] /\ d.sigma = R.given.dur[2]
-           [] kind = "cat" -> d.p = R.given.w                                   \* <<>> when no weights were given (uniform)
+           [] kind = "cat" -> /\ d.p = R.given.w                                \* <<>> when no weights were given (uniform)
+                              /\ d.alist = R.cats                                \* over the categories in the SUPPLIED order (weights match)
     ELSE CASE kind = "count" -> Agrees(d, CountVals)
            [] kind = "gap" -> \E g \in GapVariants : Len(g) > 0 /\ Agrees(d, g)
            [] kind = "dur" -> Agrees(d, DurVals)
-           [] kind = "cat" -> /\ Len(d.p) = Len(R.cats)
+           [] kind = "cat" -> /\ d.alist = R.cats
+                              /\ Len(d.p) = Len(R.cats)
                               /\ \A c \in 1..Len(R.cats) :
                                      Abs(d.p[c] * Len(Ref.units) - CatCount(R.cats[c]) * 10000) <= Len(Ref.units)
 \* judged on the state BEFORE consuming draw l: pc tells which kind the spec expects
